@@ -7,4 +7,11 @@ RiskPrices == {<<"B1", 1, 2>>, <<"B1", 1, 100000000>>}
 RiskBk == {<<"A1", "B2", "admin">>, <<"A1", "B2", "U2">>}
 RiskPricesT == {<<"B1", 1, 2>>, <<"B1", 9, 10>>, <<"B1", 1, 100000000>>, <<"B2", 3, 1>>}
 RiskBkT == {<<"A1", "B2", "admin">>, <<"A1", "B2", "riskadmin">>, <<"A1", "B2", "U2">>}
+\* long random walks (tlc -simulate): the edge counter is set once, at start-up, so that edge ids stay unique across behaviours
+ASSUME TLCSet(1, 1)
+InitSim == /\ st = InitState /\ acc = C02AccNext(C02Acc0, InitState, [ev |-> "reset"], InitState)
+           /\ acc7 = C07Acc0 /\ sid = 0 /\ depth = 0
+SpecSim == InitSim /\ [][Next]_vars
+WalkLiq == {<<"A2", "A1", "B1", "B2">>, <<"A3", "A1", "B1", "B2">>}
+WalkPrices == {<<"B1", 1, 2>>, <<"B1", 9, 10>>, <<"B1", 1, 1>>, <<"B2", 3, 1>>, <<"B2", 2, 1>>}
 =============================================================================
